@@ -149,8 +149,9 @@ Lemma all_runs (cond : params -> bool) (P : st -> bool) :
   all_params (fun p => implb (cond p) (forallb P (reach p))) = true ->
   forall p sched tr, cond p = true -> P (fst (run step sched (init p, tr))) = true.
 Proof.
-  intros H p sched tr Hc. pose proof (all_params_sound _ H p) as Hp. cbv beta in Hp.
-  apply (reach_forall p (reach p) P (reach_closed p) (implb_elim _ _ Hp Hc)).
+  intros H p sched tr Hc.
+  exact (reach_forall p (reach p) P (reach_closed p)
+           (implb_elim _ _ (all_params_sound _ H p) Hc) sched tr).
 Qed.
 
 (* per-step relations checked on every reachable state *)
@@ -167,28 +168,35 @@ Proof.
 Qed.
 
 (* configuration (state + trace) invariants whose step case is discharged by a checked
-   per-step relation *)
+   per-step relation; first for an arbitrary closed list L *)
+Lemma conf_inv_L p L (R : st -> st -> list ev -> bool) (Q : conf st ev -> Prop) :
+  closed p L = true -> forallb (step_checked R) L = true ->
+  (forall c s' evs, R (fst c) s' evs = true -> Q c -> Q (s', snd c ++ evs)) ->
+  Q (init p, []) ->
+  forall sched, Q (run step sched (init p, [])).
+Proof.
+  intros Hcl Hp HQ H0 sched.
+  unfold closed in Hcl. apply andb_true_iff in Hcl as [Hi Hcl].
+  rewrite forallb_forall in Hp. rewrite forallb_forall in Hcl.
+  assert (HI : In (fst (run step sched (init p, []))) L /\ Q (run step sched (init p, []))).
+  { apply (run_invariant st nat ev step (fun c => In (fst c) L /\ Q c)).
+    - intros c t s' evs [Hin Hq] Hs. split.
+      + cbn [fst]. specialize (Hcl _ Hin). rewrite forallb_forall in Hcl.
+        apply mem_st_In, Hcl. eapply succs_step; eauto.
+      + apply HQ; [|exact Hq]. eapply step_checked_sound; eauto.
+    - split; [|exact H0]. cbn [fst]. apply mem_st_In. exact Hi. }
+  tauto.
+Qed.
+
 Lemma conf_inv (cond : params -> bool) (R : st -> st -> list ev -> bool) (Q : conf st ev -> Prop) :
   all_params (fun p => implb (cond p) (forallb (step_checked R) (reach p))) = true ->
   (forall c s' evs, R (fst c) s' evs = true -> Q c -> Q (s', snd c ++ evs)) ->
   forall p, cond p = true -> Q (init p, []) ->
   forall sched, Q (run step sched (init p, [])).
 Proof.
-  intros H HQ p Hc H0 sched.
-  pose proof (all_params_sound _ H p) as Hp. cbv beta in Hp.
-  apply (fun h => implb_elim _ _ h Hc) in Hp.
-  rewrite forallb_forall in Hp.
-  assert (HI : In (fst (run step sched (init p, []))) (reach p) /\ Q (run step sched (init p, []))).
-  { apply (run_invariant st nat ev step (fun c => In (fst c) (reach p) /\ Q c)).
-    - intros c t s' evs [Hin Hq] Hs. split.
-      + cbn [fst]. pose proof (reach_closed p) as Hcl. unfold closed in Hcl.
-        apply andb_true_iff in Hcl as [_ Hcl]. rewrite forallb_forall in Hcl.
-        specialize (Hcl _ Hin). rewrite forallb_forall in Hcl.
-        apply mem_st_In, Hcl. eapply succs_step; eauto.
-      + apply HQ; [|exact Hq]. eapply step_checked_sound; eauto.
-    - split; [|exact H0]. cbn [fst]. pose proof (reach_closed p) as Hcl. unfold closed in Hcl.
-      apply andb_true_iff in Hcl as [Hi _]. apply mem_st_In. exact Hi. }
-  tauto.
+  intros H HQ p Hc H0.
+  exact (conf_inv_L p (reach p) R Q (reach_closed p)
+           (implb_elim _ _ (all_params_sound _ H p) Hc) HQ H0).
 Qed.
 
 (* ------------------------------------------------------------------------------------------ *)
